@@ -246,6 +246,8 @@ def method(ex, recv, name, args, kwargs, st, recv_node, call_node):
 
 def find_like(ex, s, sub, start, end, st, reverse=False):
     n = z3.Length(s)
+    if reverse and start is None and end is None:
+        return z3.LastIndexOf(s, sub)
     a = z3.IntVal(0) if start is None else clamp_index(start, n)
     if end is not None or reverse:
         # restricted to a window: encode through the substring
@@ -688,6 +690,18 @@ def sf_latin1_lower(ex, node, st):
     return VBool(latin1_pred("islower", ex.eval(node.args[0], st).z))
 
 
+def sf_canon_quad(ex, node, st):
+    """canon_quad(text): text is a canonical dotted quad - an uninterpreted predicate with one ground fact: it lies in the
+    obvious regular language (four groups of one to three digits)."""
+    a = ex.eval(node.args[0], st)
+    f = uf(ex, "CANON_QUAD", S, B)
+    r = f(a.z)
+    if not getattr(st, "in_binder", 0):
+        d = z3.Loop(z3.Range("0", "9"), 1, 3)
+        st.fact(z3.Implies(r, z3.InRe(a.z, z3.Concat(d, z3.Re("."), d, z3.Re("."), d, z3.Re("."), d))))
+    return VBool(r)
+
+
 def sf_matches(ex, node, st):
     """matches(PATTERN, text): text is in L(PATTERN°) - the language of the real pattern constant, look-arounds erased."""
     from . import regex2smt as R2
@@ -764,6 +778,7 @@ SPEC_FORMS = {
     "hi": sf_hi,
     "alloc": sf_alloc,
     "matches": sf_matches,
+    "canon_quad": sf_canon_quad,
     "latin1_upper": sf_latin1_upper,
     "latin1_lower": sf_latin1_lower,
     "called": sf_called,
